@@ -17,7 +17,7 @@ META = {
         "ascending (receiver of cmp rooted at the first closure parameter), date before ticker in the shared "
         "comparator, and the sorts are stable. R4: the four stated orders (tax years, disposals, holdings, "
         "transaction echo) are produced by a sort on the stated key that dominates the construction of the output. "
-        "Decides the shape of the code on all paths; does not observe bytes of any run. R1 also: collecting hash-ordered items into a MAP is order-insensitive only when the items' keys are the source's keys; keys re-derived by a map/filter_map stage (parse of a string key) may collide and the surviving value then depends on the hash order — reported unless the adaptor provably keeps the key."),
+        "Decides the shape of the code on all paths; does not observe bytes of any run. R1 also: collecting hash-ordered items into a MAP is order-insensitive only when the items' keys are the source's keys; keys re-derived by a map/filter_map stage (parse of a string key) may collide and the surviving value then depends on the hash order — reported unless the adaptor provably keeps the key. R1 also: min_by_key/max_by_key/min_by/max_by over a hash-ordered iterator are tie-breaking consumers (the item chosen among equal keys follows the hash order), not order-insensitive ones."),
     "trusted_base": [
         "rustc MIR (nightly, mir-opt-level=0) and Instance::try_resolve callee resolution",
         "std: slice::sort_by/sort_by_key are stable; BTreeMap/BTreeSet iterate in key order",
